@@ -138,6 +138,8 @@ pub struct Profile {
     pub perms: bool,
     pub tag_on_modifiers: bool,
     pub extra: usize,
+    /// pattern-less (options only), `*` and single-character patterns
+    pub tiny_patterns: bool,
 }
 
 pub const HOSTS: &[&str] = &[
@@ -194,13 +196,21 @@ fn pick_s(r: &mut Rng, xs: &[&str]) -> String {
 }
 
 pub fn gen_pattern(r: &mut Rng, p_regexish: u32) -> (String, bool) {
+    gen_pattern_t(r, p_regexish, true)
+}
+
+pub fn gen_pattern_t(r: &mut Rng, p_regexish: u32, tiny: bool) -> (String, bool) {
     // returns (pattern, is_complete_regex)
     let h = pick_s(r, HOSTS);
     let s1 = pick_s(r, SEGS);
     let s2 = pick_s(r, SEGS);
     let e = pick_s(r, EXTS);
     if r.chance(p_regexish) {
-        match r.below(9) {
+        match r.below(13) {
+            9 => (format!("{}*{}|", s1, if e.is_empty() { ".gif".into() } else { e }), false),
+            10 => (format!("|https://{}/*{}", h, s1), false),
+            11 => (format!("/{}*{}|", s1, if e.is_empty() { ".js".into() } else { e }), false),
+            12 => (format!("|http*://{}/{}", h, s1), false),
             0 => (format!("/{}/*/{}", s1, s2), false),
             1 => (format!("/{}^", s1), false),
             2 => (format!("^{}^", s1), false),
@@ -212,7 +222,11 @@ pub fn gen_pattern(r: &mut Rng, p_regexish: u32) -> (String, bool) {
             _ => (format!("/{}/{}*", s1, s2), false),
         }
     } else {
-        match r.below(10) {
+        match r.below(if tiny { 13 } else { 10 }) {
+            // pattern-less rules (options only) and single-character patterns
+            10 => (String::new(), false),
+            11 => ("*".to_string(), false),
+            12 => (pick_s(r, &["x", "a", "/"]), false),
             0 => (format!("/{}/{}", s1, s2), false),
             1 => (format!("||{}^", h), false),
             2 => (format!("||{}/{}", h, s1), false),
@@ -240,7 +254,7 @@ fn gen_domain_opt(r: &mut Rng) -> String {
 }
 
 pub fn gen_net_rule(r: &mut Rng, p: &Profile) -> NetRule {
-    let (mut pat, complete) = gen_pattern(r, p.p_regexish);
+    let (mut pat, complete) = gen_pattern_t(r, p.p_regexish, p.tiny_patterns);
     let mut opts: Vec<String> = vec![];
     let mut exc = r.chance(25);
     // modifier (at most one)
@@ -516,7 +530,7 @@ pub fn gen_world(seed: u64, p: &Profile) -> World {
                     }
                 }
                 2 => {
-                    let (pat, _complete) = gen_pattern(&mut r, p.p_regexish);
+                    let (pat, _complete) = gen_pattern_t(&mut r, p.p_regexish, p.tiny_patterns);
                     if !twin.opts.iter().any(|o| o == "match-case") {
                         twin.pat = pat;
                     }
@@ -531,6 +545,21 @@ pub fn gen_world(seed: u64, p: &Profile) -> World {
                 }
             }
             rules.push(Rule { spec: RuleSpec::Net(twin), perm });
+        }
+        // sibling groups: same exception-ness, options and tag, different patterns of the same kind,
+        // so that the optimizer has non-trivial groups to fuse
+        if r.chance(30) && !nr.opts.iter().any(|o| o == "match-case" || o.starts_with("removeparam")) {
+            let regexish = nr.pat.contains('*') || nr.pat.contains('^');
+            let k = r.range(1, 3);
+            for _ in 0..k {
+                let mut sib = nr.clone();
+                let (pat, complete) = gen_pattern_t(&mut r, if regexish { 100 } else { 0 }, p.tiny_patterns);
+                if complete {
+                    continue;
+                }
+                sib.pat = pat;
+                rules.push(Rule { spec: RuleSpec::Net(sib), perm });
+            }
         }
         if p.badfilter && r.chance(6) {
             let mut bf = nr.clone();
